@@ -83,6 +83,7 @@ class Interp(object):
         self.loop_ordinals = {}
         self.call_edges = []
         self.force_inline = set()
+        self.frames = []
 
     # ------------------------------------------------------------------ globals
     def module_globals(self, mod):
@@ -146,6 +147,15 @@ class Interp(object):
         ctx.executed.add(finfo.qualname)
         ctx.fn_stack.append(finfo.qualname)
         self.depth += 1
+        pushed = False
+        con = self.registry.get(finfo.qualname) if self.registry is not None else None
+        if con is not None and con.loops and self.depth > 1:
+            from .verify import Frame
+            fr = Frame(env.locals.get("self"), env.locals, ctx, self)
+            fr.g = ctx.ghost
+            fr.snapshot()
+            self.frames.append(fr)
+            pushed = True
         try:
             try:
                 self.exec_block(finfo.node.body, env)
@@ -155,6 +165,8 @@ class Interp(object):
         finally:
             self.depth -= 1
             ctx.fn_stack.pop()
+            if pushed:
+                self.frames.pop()
 
     def bind_params(self, finfo, env, args, kwargs, node):
         a = finfo.node.args
@@ -191,6 +203,11 @@ class Interp(object):
             env.locals[a.kwarg.arg] = PyDict(kwargs)
         elif kwargs:
             raise PyExc("TypeError", ("unexpected keyword arguments %s" % sorted(kwargs),))
+
+    def deref(self, v):
+        if isinstance(v, Model) and hasattr(v, "resolve"):
+            return v.resolve(self)
+        return v
 
     def find_method(self, cinfo, name):
         for c in cinfo.mro(self.program):
@@ -490,6 +507,8 @@ class Interp(object):
             return ctx.bool(base, record=False)
         if kind == "optreal":
             return Opt(ctx.bool(base + ".isnone", record=False), ctx.real(base, record=False))
+        if kind == "forked-bool":
+            return self.ctx.branch(ctx.bool(base, record=False))
         raise Unsupported("havoc kind %r" % (kind,))
 
     def kind_of(self, v):
@@ -513,7 +532,10 @@ class Interp(object):
         if cur is UNDEF:
             raise Unsupported("path %s: unknown root" % path, node)
         for p in parts[1:-1]:
-            cur = self.get_attr(cur, p, node)
+            if isinstance(cur, Model) and not isinstance(cur, Obj) and hasattr(cur, p):
+                cur = getattr(cur, p)
+            else:
+                cur = self.get_attr(cur, p, node)
         return cur, parts[-1]
 
     def symbolic_for(self, st, env, seq, spec, ordinal):
@@ -521,7 +543,7 @@ class Interp(object):
         fq = env.finfo.qualname
         n = seq.length
         lname = "%s/loop%d" % (fq, ordinal)
-        frame = getattr(self, "frame", None)
+        frame = self.frames[-1] if self.frames else getattr(self, "frame", None)
 
         def inv(k):
             return spec.invariant(View(env.locals, f=frame, n=n, seq=seq), k)
@@ -556,6 +578,10 @@ class Interp(object):
             k = ctx.int(lname.split("/")[-1] + ".k", record=False)
             ctx.assume(z3.And(k >= 0, k < n))
             ctx.assume(_b(inv(k)))
+            ctx.ghost[lname + ".k"] = k
+            if spec.reveal is not None:
+                for eqn in spec.reveal(View(env.locals, f=frame, n=n, seq=seq), k):
+                    ctx.assume(_b(eqn), definitional=True)
             self.assign(st.target, seq.get(k), env)
             w0 = len(ctx.writes)
             try:
@@ -788,6 +814,10 @@ class Interp(object):
                     return BoundMethod(base, m)
             if name == "__class__":
                 return ClassRef(base.cls) if base.cls is not None else ExtClass(base.clsname)
+            if name == "__dict__":
+                d = PyDict(base.fields)
+                d.fresh = True
+                return d
             raise PyExc("AttributeError", ("%s has no attribute %s" % (base.clsname, name),))
         if isinstance(base, Model):
             return base.get_attr(self, name, node)
@@ -1366,6 +1396,7 @@ def _bi_range(interp, args, kwargs, node):
 
 def _bi_isinstance(interp, args, kwargs, node):
     v, t = args
+    v = interp.deref(v)
     ts = t if isinstance(t, tuple) else (t,)
     for c in ts:
         if isinstance(c, ClassRef):
@@ -1443,6 +1474,8 @@ def _bi_str(interp, args, kwargs, node):
         return str(v)
     if isinstance(v, int):
         return str(v)
+    if isinstance(v, Model) and hasattr(v, "to_str"):
+        return v.to_str(interp)
     return mkstr([Hole(v)])
 
 
